@@ -109,7 +109,7 @@ example : mergeStructured true [[1, 2], [2]] (restrictField true [[1, 2], [2]] (
 -- a point decomposition needs at least one piece per direction (hypothesis of C06_structured_index)
 example : mergeStructured true [[]] (fun _ => ([] : List Int)) 0 = [0] := by decide
 
-/-! ### decomposition recovery, PVTR ordinates (findings F14, F15) -/
+/-! ### decomposition recovery, PVTR ordinates (former findings F16, F17) -/
 
 -- 2 x 1 pieces of a 4 x 2 grid listed in reverse order, extents shifted by (3, -2, 0)
 example : (structuredDecomposition [[5, 7, -2, 0, 0, 0], [3, 5, -2, 0, 0, 0]]).cellsPerAxis = [[2, 2], [2], [0]] ∧
@@ -119,12 +119,15 @@ example : (structuredDecomposition [[5, 7, -2, 0, 0, 0], [3, 5, -2, 0, 0, 0]]).c
 -- x–y grid at z = 0 split in x: ordinates assembled correctly
 example : pvtrOrdinates (structuredDecomposition [[0, 1, 0, 1, 0, 0], [1, 3, 0, 1, 0, 0]])
     [[[0, 10], [0, 5], [0]], [[10, 20, 30], [0, 5], [0]]] = some [[0, 10, 20, 30], [0, 5], [0]] := by decide
--- F15: the same grid at z = 7 comes out at z = 0
+-- (former finding F17, fixed by 444374c) the same grid at z = 7 keeps z = 7
 example : pvtrOrdinates (structuredDecomposition [[0, 1, 0, 1, 0, 0], [1, 3, 0, 1, 0, 0]])
-    [[[0, 10], [0, 5], [7]], [[10, 20, 30], [0, 5], [7]]] = some [[0, 10, 20, 30], [0, 5], [0]] := by decide
--- F14: a grid in the x–z plane split in z: the second z-piece is never consulted, the first one is
--- written twice: z ordinates [0, 0, 5, 0] instead of [0, 5, 6, 7]
-example : pvtrOrdinates (structuredDecomposition [[0, 1, 0, 0, 0, 1], [0, 1, 0, 0, 1, 3]])
-    [[[0, 10], [0], [0, 5]], [[0, 10], [0], [5, 6, 7]]] = some [[0, 10], [0], [0, 0, 5, 0]] := by decide
+    [[[0, 10], [0, 5], [7]], [[10, 20, 30], [0, 5], [7]]] = some [[0, 10, 20, 30], [0, 5], [7]] := by decide
+-- (former finding F16, fixed by 444374c) a grid in the x–z plane split in z, pieces listed in reverse
+-- order: the z ordinates are those of the whole grid
+example : pvtrOrdinates (structuredDecomposition [[0, 1, 0, 0, 1, 3], [0, 1, 0, 0, 0, 1]])
+    [[[0, 10], [0], [5, 6, 7]], [[0, 10], [0], [0, 5]]] = some [[0, 10], [0], [0, 5, 6, 7]] := by decide
+-- hypotheses of `C06_pvtr_line` / `C06_pvtr_ordinates_partial` are satisfiable
+example : axisPieces [0, 5, 6, 7] 0 [1, 2] = [[0, 5], [5, 6, 7]] ∧
+    assembleLine (List.replicate 4 0) (axisPieces [0, 5, 6, 7] 0 [1, 2]) = some [0, 5, 6, 7] := by decide
 
 end Fc.C06
